@@ -34,7 +34,33 @@ LEX_CFG = {
     'bodies_prelude': '#include "libc_model.h"\n',
 }
 LEX_ROOTS = ['parse_esc_num']
+SPX = r'(const )?std::(shared_ptr<(op|op_origin|stringer|stringer_origin)>|__shared_ptr<(op|op_origin|stringer|stringer_origin).*>|__shared_ptr_access<(op|op_origin|stringer|stringer_origin).*>)'
+VOPS = r'(const )?std::vector<std::shared_ptr<op>(, std::allocator<std::shared_ptr<op>>)?>'
+VOPIT = r'__gnu_cxx::__normal_iterator<(const )?std::shared_ptr<op> \*, std::vector<std::shared_ptr<op>.*>>'
+LIFE_OPS = ['op_origin', 'op_subx', 'op_tr_closure', 'op_capture', 'op_bind', 'op_ifelse', 'op_format', 'op_merge']
+LIFE_CFG = {
+    'names': dict([('%s::state_con' % o, '%s_state_con' % o) for o in LIFE_OPS] + [('%s::state_des' % o, '%s_state_des' % o) for o in LIFE_OPS] +
+                  [('inner_op::state_con', 'inner_op_state_con'), ('inner_op::state_des', 'inner_op_state_des')]),
+    'types': {SPX: 'op *', r'(const )?scon': 'mscon', r'layout::loc': 'unsigned long', VOPS: 'vec_opp',
+              VOPIT + r'|std::vector<std::shared_ptr<op>>::(const_)?iterator': 'op *const *',
+              r'std::vector<std::shared_ptr<op>>::size_type|std::vector::size_type': 'size_t'},
+    'types_are_records': {r'(const )?scon': True, VOPS: True},
+    'record_ctypes': ['mscon', 'vec_opp'],
+    'types_prelude': '#include "life_model.h"\ntypedef struct op op;\nVERIF_VEC(vec_opp, op *);\n',
+    'bodies_prelude': '#include "life_model2.h"\n',
+    'virtual': {'op::state_con': 'op_state_con_model', 'op::state_des': 'op_state_des_model',
+                'stringer::state_con': 'op_state_con_model', 'stringer::state_des': 'op_state_des_model'},
+    'extern': {r'scon::con': 'SCON_CON', r'scon::des': 'SCON_DES',
+               r'std::__shared_ptr_access<(op|op_origin|stringer|stringer_origin).*>::operator->': {'c': 'PTR_ID', 'by_value': True},
+               VOPS + r'::size': 'GVEC_SIZE', VOPS + r'::begin': 'GVEC_BEGIN', VOPS + r'::end': 'GVEC_END',
+               r'__gnu_cxx::operator!=': {'c': 'GIT_NE', 'by_value': True},
+               VOPIT + r'::operator\+\+': 'GIT_PREINC', VOPIT + r'::operator\*': {'c': 'GIT_DEREF', 'by_value': True}},
+}
+LIFE_ROOTS = ['%s::state_con' % o for o in LIFE_OPS] + ['%s::state_des' % o for o in LIFE_OPS]
 INPUTS = ['a', 'b', 'in_size', 'in_align', 's1', 'a1', 's2', 'a2']
+
+
+EV_UNWIND = 12
 
 
 def jobs(tier):
@@ -54,6 +80,13 @@ def jobs(tier):
     J.append(Job('parse_esc_num', lsrc, 'h_parse_esc_num', enforce='lex_parse_esc_num', includes=inc,
                  inputs=['in_len', 'in_ignore', 'in_base'], defines=['C13_LEXER'], timeout=600, unwind=8,
                  note='loops only in the strtoul model, bounded by the 4 characters the scanner rule admits (full unwind = complete)'))
+    fsrc = [os.path.join(HERE, 'life_harness.c'), os.path.join(OUT, 'life_bodies.c')]
+    for o in ('origin', 'subx', 'tr_closure', 'capture', 'bind', 'ifelse', 'format'):
+        J.append(Job('lifecycle_' + o, fsrc, 'h_life_' + o, includes=inc, kind='proof', unwind=EV_UNWIND, timeout=300,
+                     cbmc_args=['--object-bits', '10'],
+                     note='op_%s::state_con then ::state_des against the ghost event log; loop-free code, the harness loops run over the 10-entry log (full unwinding)' % o))
+    J.append(Job('bounded_lifecycle_merge', fsrc, 'hb_life_merge', includes=inc, kind='bounded', unwind=EV_UNWIND, timeout=300,
+                 cbmc_args=['--object-bits', '10'], note='op_merge with at most 3 branches'))
     add('control', 'h_control', None, defines=['VERIF_CONTROL'], kind='control', expect='fail')
     return J
 
@@ -64,7 +97,8 @@ ASSUMPTIONS = [
     'alignment is a power of two (alignof of a C++ type always is) and sizes keep the area below 2^48 bytes',
     'add_union: std::vector<layout> by the generic (data,len,cap) model props/vecgen.h; contract states the lower bounds (never shrinks, at least as large as every alternative), not that it is exactly the maximum',
     'parse_esc_num: precondition = the scanner rules that call it (\\[0-3][0-7]?[0-7]? and \\x HEX HEX); strtoul by props/c13/libc_model.h (assumed contract on glibc); the operand of throw (message construction) is dropped',
-    'SLICE: construct-once/destroy-once of op state, leaks, use-after-free in the op graph and parser are NOT covered by this check',
+    'state life cycle (lifecycle_* jobs): scon::con/des and the sub-operators\' virtual state_con/state_des are modelled by a ghost event log (props/c13/life_model*.h); covered operators: op_origin, op_subx, op_tr_closure, op_capture, op_bind, op_ifelse, op_format, op_merge',
+    'SLICE: lazily constructed states (scon_guard in op_ifelse/pred_subx_any/op_apply), op_or, overload instances, leaks, use-after-free and parser memory are NOT covered',
 ]
 EXPLANATION = 'Only the layout arithmetic that places states in the shared state area; see DESIGN.md section 4 C13.'
 
@@ -77,6 +111,8 @@ def prepare(tier):
     lw = vlib.extract('layout', 'libzwerg/layout.cc', CFG, ROOTS, OUT)
     gen = vlib.gen_frontend(os.path.join(OUT, 'gen'))
     lx = vlib.extract('lex', os.path.join(gen, 'lexer.cc'), LEX_CFG, LEX_ROOTS, OUT, extra_flags=['-I' + gen])
+    lf = vlib.extract('life', 'libzwerg/op.cc', LIFE_CFG, LIFE_ROOTS, OUT)
+    lx.report['functions'] += lf.report['functions']
     return {'units': ['libzwerg/layout.cc', 'libzwerg/lexer.ll (through flex, regenerated on every run)'],
             'functions': lw.report['functions'] + lx.report['functions'],
             'dropped': lx.report.get('throws', [])}
